@@ -31,7 +31,7 @@ func DistanceHaversine(p1, p2 orb.Point) float64 {
 	dLon2Sin := math.Sin(dLon / 2)
 	a := dLat2Sin*dLat2Sin + math.Cos(deg2rad(p2[1]))*math.Cos(deg2rad(p1[1]))*dLon2Sin*dLon2Sin
 
-	return 2.0 * orb.EarthRadius * math.Atan2(math.Sqrt(a), math.Sqrt(1-a))
+	return 2.0 * orb.EarthRadius * math.Atan2(math.Sqrt(a), math.Sqrt(math.Max(0, 1-a)))
 }
 
 // Bearing computes the direction one must start traveling on earth
